@@ -18,10 +18,11 @@ import (
 type c08TLim struct {
 	Rate  int `json:"rate"`
 	Burst int `json:"burst"`
+	Share int `json:"share,omitempty"` // 0: a key of its own; s>0: the limiters with the same s use ONE key (config reload, mixed deployment)
 }
 
 type c08TOp struct {
-	K string `json:"k"`           // allow | callow | adv | outage | recover
+	K string `json:"k"`           // allow | callow | mallow | adv | outage | recover | cancel
 	L int    `json:"l,omitempty"` // limiter index
 	N int    `json:"n,omitempty"` // tokens requested
 	C int    `json:"c,omitempty"` // callow: concurrent callers, each requesting N
@@ -29,6 +30,10 @@ type c08TOp struct {
 	M string `json:"m,omitempty"` // adv: "" both clocks | "caller" | "server"; outage: kind
 	V string `json:"v,omitempty"` // allow: entry point, "" AllowN | "ctx" AllowNCtx | "now" Allow | "nowctx" AllowCtx (n = 1, clocks coupled)
 	X int    `json:"x,omitempty"` // allow with V "ctx": 0 context.Background, k>0 the case's context k; cancel: context k
+	// mallow: concurrent callers of ONE limiter released from a barrier, caller j
+	// requests Ns[j] tokens with now = caller clock + Ds[j] ms (same whole second)
+	Ns []int `json:"ns,omitempty"`
+	Ds []int `json:"ds,omitempty"`
 }
 
 // c08TCtx: a request context of the case, created when the case starts.
@@ -53,29 +58,66 @@ type c08TCase struct {
 // floor(2*burst/rate) seconds of SERVER time (then it is full again), which is
 // a no-op whenever caller time advances at least as much as server time.
 
+// What the server keeps for a key is the token count, the caller second of the
+// last call and a time-to-live chosen by the last caller. Several limiter
+// instances (possibly with different rate/burst: a reloaded configuration, a
+// mixed deployment) may use one key; each decision is then the one of the
+// CALLER's bucket applied to the shared state: min(burst_caller, stored +
+// elapsed seconds * rate_caller) tokens are available.
+
+type c08State struct {
+	present bool
+	tokens  int64
+	sec     int64 // caller second of the last call
+	touched int64 // server ms of the last call
+	ttl     int64 // ms of server time after which the state is forgotten (set by the last caller)
+}
+
 type c08Bucket struct {
 	rate, burst int64
-	present     bool
-	tokens      int64
-	sec         int64 // caller second of the last call
-	touched     int64 // server ms of the last call
-	forgot      bool  // last call found the bucket forgotten while it was not full by caller time
+	st          *c08State
+	forgot      bool // last call found the state forgotten while the bucket was not full by caller time
+}
+
+func c08NewBucket(rate, burst int, st *c08State) *c08Bucket {
+	if st == nil {
+		st = &c08State{}
+	}
+	return &c08Bucket{rate: int64(rate), burst: int64(burst), st: st}
+}
+
+// c08NewBuckets: one reference bucket per limiter; limiters of one share group use one state.
+func c08NewBuckets(lims []c08TLim) []*c08Bucket {
+	shared := map[int]*c08State{}
+	out := make([]*c08Bucket, len(lims))
+	for i, l := range lims {
+		var st *c08State
+		if l.Share > 0 {
+			if shared[l.Share] == nil {
+				shared[l.Share] = &c08State{}
+			}
+			st = shared[l.Share]
+		}
+		out[i] = c08NewBucket(l.Rate, l.Burst, st)
+	}
+	return out
 }
 
 func (b *c08Bucket) ttlMs() int64 { return (2 * b.burst / b.rate) * 1000 }
 
 func (b *c08Bucket) filled(sec, serverMs int64) (filled int64, expired bool) {
-	if b.present && serverMs-b.touched >= b.ttlMs() {
+	st := b.st
+	if st.present && serverMs-st.touched >= st.ttl {
 		expired = true
 	}
-	if !b.present || expired {
+	if !st.present || expired {
 		return b.burst, expired
 	}
-	d := sec - b.sec
+	d := sec - st.sec
 	if d < 0 {
 		d = 0
 	}
-	filled = b.tokens + d*b.rate
+	filled = st.tokens + d*b.rate
 	if filled > b.burst {
 		filled = b.burst
 	}
@@ -84,14 +126,15 @@ func (b *c08Bucket) filled(sec, serverMs int64) (filled int64, expired bool) {
 
 func (b *c08Bucket) allow(sec, serverMs, n int64) bool {
 	filled, expired := b.filled(sec, serverMs)
+	st := b.st
 	b.forgot = false
 	if expired {
 		// would caller time alone have refilled it?
-		d := sec - b.sec
+		d := sec - st.sec
 		if d < 0 {
 			d = 0
 		}
-		if b.tokens+d*b.rate < b.burst {
+		if st.tokens+d*b.rate < b.burst {
 			b.forgot = true
 		}
 	}
@@ -99,8 +142,47 @@ func (b *c08Bucket) allow(sec, serverMs, n int64) bool {
 	if ok {
 		filled -= n
 	}
-	b.present, b.tokens, b.sec, b.touched = true, filled, sec, serverMs
+	st.present, st.tokens, st.sec, st.touched, st.ttl = true, filled, sec, serverMs, b.ttlMs()
 	return ok
+}
+
+// mixed: concurrent requests ns[j] (all in caller second sec) with observed
+// decisions got[j]. Reports whether SOME sequential order of the calls yields
+// exactly these decisions, and if so applies it. The tokens left after a set of
+// calls depend only on which of them were granted, so a search over subsets
+// (done[mask]) covers all orders.
+func (b *c08Bucket) mixed(sec, serverMs int64, ns []int64, got []bool) bool {
+	filled, _ := b.filled(sec, serverMs)
+	k := len(ns)
+	left := func(mask int) int64 {
+		t := filled
+		for j := 0; j < k; j++ {
+			if mask&(1<<j) != 0 && got[j] {
+				t -= ns[j]
+			}
+		}
+		return t
+	}
+	reach := make([]bool, 1<<k)
+	reach[0] = true
+	for mask := 0; mask < 1<<k; mask++ {
+		if !reach[mask] {
+			continue
+		}
+		t := left(mask)
+		for j := 0; j < k; j++ {
+			if mask&(1<<j) == 0 && got[j] == (t >= ns[j]) {
+				reach[mask|1<<j] = true
+			}
+		}
+	}
+	if !reach[1<<k-1] {
+		return false
+	}
+	st := b.st
+	st.present, st.tokens, st.sec, st.touched, st.ttl = true, left(1<<k-1), sec, serverMs, b.ttlMs()
+	b.forgot = false
+	return true
 }
 
 // ---- reference bucket in continuous caller time (the in-process side) ----
@@ -193,7 +275,7 @@ func c08TokenInterp(t *testing.T, c c08TCase, rule int) (v kit.Verdict) {
 		base := c08Epoch // caller clock origin: data, independent of the bubble clock
 		nl := len(c.Lims)
 		lims := make([]*limit.TokenLimiter, nl)
-		redisB := make([]*c08Bucket, nl)
+		var redisB []*c08Bucket
 		rescB := make([]*c08Rescue, nl)
 		keys := make([]string, nl)
 		grants := make([][]c08Grant, nl)
@@ -203,10 +285,20 @@ func c08TokenInterp(t *testing.T, c c08TCase, rule int) (v kit.Verdict) {
 		onRedis := make([]bool, nl)    // restart rule: served by Redis since the last restart
 		detectCtx := make([]int, nl)   // context (1-based, 0 none) of the first request of the current outage
 		firstInOutage := make([]bool, nl)
+		redisB = c08NewBuckets(c.Lims)
+		sharedKey := map[int]int{}
+		for _, l := range c.Lims {
+			sharedKey[l.Share]++
+		}
 		for i, l := range c.Lims {
 			keys[i] = fmt.Sprintf("c08t%d_%d", c08Seq, i)
+			if l.Share > 0 {
+				keys[i] = fmt.Sprintf("c08t%d_s%d", c08Seq, l.Share)
+				if sharedKey[l.Share] > 1 {
+					classes["limiters-sharing-one-key"] = true
+				}
+			}
 			lims[i] = limit.NewTokenLimiter(l.Rate, l.Burst, store, keys[i])
-			redisB[i] = &c08Bucket{rate: int64(l.Rate), burst: int64(l.Burst)}
 			rescB[i] = &c08Rescue{rate: int64(l.Rate), burst: int64(l.Burst)}
 		}
 		var callerMs, serverMs int64
@@ -220,6 +312,9 @@ func c08TokenInterp(t *testing.T, c c08TCase, rule int) (v kit.Verdict) {
 			if f, _ := b.filled(sec, serverMs); f == n {
 				classes["request-equals-available"] = true
 			}
+			if _, exp := b.filled(sec, serverMs); !exp && b.st.present && b.st.tokens > b.burst && sec <= b.st.sec {
+				classes["shared-key-holds-more-than-callers-burst-same-second"] = true
+			}
 			want := 0
 			for j := 0; j < callers; j++ {
 				if b.allow(sec, serverMs, n) {
@@ -231,7 +326,7 @@ func c08TokenInterp(t *testing.T, c c08TCase, rule int) (v kit.Verdict) {
 			}
 			if granted != want {
 				fail = fmt.Sprintf("%s: caller second %d, server t=%dms: %d of %d requests for %d tokens granted, reference bucket (rate %d burst %d) grants %d (tokens left in model %d)",
-					what, sec, serverMs, granted, callers, n, b.rate, b.burst, want, b.tokens)
+					what, sec, serverMs, granted, callers, n, b.rate, b.burst, want, b.st.tokens)
 				return false
 			}
 			for j := 0; j < granted; j++ {
@@ -412,6 +507,58 @@ func c08TokenInterp(t *testing.T, c c08TCase, rule int) (v kit.Verdict) {
 				if !request(what, o.L, int64(o.N), o.C, "", 0) {
 					break ops
 				}
+			case "mallow":
+				// different requests inside AllowN of ONE limiter at the same instant,
+				// in real parallel: goroutines parked on a barrier and released together
+				if down || len(o.Ns) != len(o.Ds) || len(o.Ns) < 2 || len(o.Ns) > 6 {
+					continue
+				}
+				k := len(o.Ns)
+				got := make([]bool, k)
+				ns := make([]int64, k)
+				sec := base.Add(time.Duration(callerMs) * time.Millisecond).Unix()
+				barrier := make(chan struct{})
+				var wg sync.WaitGroup
+				for j := 0; j < k; j++ {
+					ns[j] = int64(o.Ns[j])
+					nowj := base.Add(time.Duration(callerMs+int64(o.Ds[j])) * time.Millisecond)
+					if nowj.Unix() != sec {
+						nowj = base.Add(time.Duration(callerMs) * time.Millisecond)
+					}
+					wg.Add(1)
+					go func(j int, nowj time.Time) {
+						defer wg.Done()
+						<-barrier
+						got[j] = lims[o.L].AllowN(nowj, o.Ns[j])
+					}(j, nowj)
+				}
+				kit.Wait() // every caller is parked on the barrier
+				t0 := srv.realNow()
+				close(barrier)
+				wg.Wait()
+				if srv.realNow().Sub(t0) > c08Stall {
+					stalled = true
+					break ops
+				}
+				b := redisB[o.L]
+				before, _ := b.filled(sec, serverMs)
+				if !b.mixed(sec, serverMs, ns, got) {
+					fail = fmt.Sprintf("%s: caller second %d, server t=%dms: concurrent requests %v of one limiter (rate %d burst %d, %d tokens available) were decided %v; no sequential order of these calls gives that (a request is granted iff the tokens left by the calls before it suffice)",
+						what, sec, serverMs, o.Ns, b.rate, b.burst, before, got)
+					break ops
+				}
+				classes["concurrent-mixed-requests"] = true
+				for j := range got {
+					if got[j] {
+						grants[o.L] = append(grants[o.L], c08Grant{sec, ns[j]})
+					} else {
+						denied[o.L] = true
+						classes["deny"] = true
+						if ns[j] <= before {
+							classes["mixed-batch-denial-explained-only-by-order"] = true
+						}
+					}
+				}
 			case "adv":
 				switch o.M {
 				case "caller":
@@ -534,6 +681,9 @@ func c08TokenInterp(t *testing.T, c c08TCase, rule int) (v kit.Verdict) {
 		// in which caller time never lags server time, no outage)
 		if !serverOnly && outages == 0 && rule != c08RuleRestart {
 			for l, g := range grants {
+				if c.Lims[l].Share > 0 && sharedKey[c.Lims[l].Share] > 1 {
+					continue // the bound speaks of one bucket configuration per key
+				}
 				rate, burst := int64(c.Lims[l].Rate), int64(c.Lims[l].Burst)
 				for a := 0; a < len(g); a++ {
 					var sum int64
@@ -572,13 +722,20 @@ func c08TokenInterp(t *testing.T, c c08TCase, rule int) (v kit.Verdict) {
 
 // ---- generators ----
 
-func c08GenLims(rt *rapid.T, max int) []c08TLim {
+func c08GenLims(rt *rapid.T, max int, share bool) []c08TLim {
 	n := rapid.IntRange(1, max).Draw(rt, "nlims")
 	out := make([]c08TLim, n)
+	groups := 0
+	if share && n > 1 {
+		groups = rapid.IntRange(0, 2).Draw(rt, "share-groups") // 0: every limiter has its own key
+	}
 	for i := range out {
 		r := rapid.IntRange(1, 20).Draw(rt, "rate")
 		b := rapid.IntRange((r+1)/2, 24).Draw(rt, "burst") // 2*burst >= rate: the script's TTL is positive
 		out[i] = c08TLim{Rate: r, Burst: b}
+		if groups > 0 {
+			out[i].Share = rapid.IntRange(1, groups).Draw(rt, "share")
+		}
 	}
 	return out
 }
@@ -598,20 +755,46 @@ func c08PickN(rt *rapid.T, avail, burst int64) int {
 }
 
 func c08TokenGen(rt *rapid.T) c08TCase {
-	c := c08TCase{Lims: c08GenLims(rt, 3)}
+	c := c08TCase{Lims: c08GenLims(rt, 3, true)}
 	const epoch = int64(946684800)
-	model := make([]*c08Bucket, len(c.Lims))
-	for i, l := range c.Lims {
-		model[i] = &c08Bucket{rate: int64(l.Rate), burst: int64(l.Burst)}
+	model := c08NewBuckets(c.Lims)
+	// reload: the limiters are used one after the other (an instance replaces its predecessor)
+	reload := len(c.Lims) > 1 && rapid.IntRange(0, 2).Draw(rt, "reload") == 0
+	cur := 0
+	pickLim := func() int {
+		if !reload {
+			return rapid.IntRange(0, len(c.Lims)-1).Draw(rt, "lim")
+		}
+		if cur < len(c.Lims)-1 && rapid.IntRange(0, 5).Draw(rt, "next-instance") == 0 {
+			cur++
+		}
+		return cur
 	}
 	var callerMs, serverMs int64
 	decoupled := false // a caller-only step happened: the bubble clock is no longer the caller clock
 	n := rapid.IntRange(1, 60).Draw(rt, "nops")
 	for i := 0; i < n; i++ {
-		kind := rapid.SampledFrom([]string{"allow", "allow", "allow", "allow", "allow", "callow", "adv", "adv", "adv"}).Draw(rt, "kind")
+		kind := rapid.SampledFrom([]string{"allow", "allow", "allow", "allow", "allow", "callow", "mallow", "adv", "adv", "adv"}).Draw(rt, "kind")
 		switch kind {
+		case "mallow":
+			l := pickLim()
+			b := model[l]
+			sec := epoch + callerMs/1000
+			avail, _ := b.filled(sec, serverMs)
+			k := rapid.IntRange(2, 6).Draw(rt, "callers")
+			o := c08TOp{K: "mallow", L: l}
+			room := int(999 - callerMs%1000)
+			for j := 0; j < k; j++ {
+				o.Ns = append(o.Ns, c08PickN(rt, avail, b.burst))
+				o.Ds = append(o.Ds, rapid.IntRange(0, room).Draw(rt, "now-offset-ms"))
+			}
+			// generator-side bookkeeping: any feasible outcome will do (greedy in index order)
+			for j := 0; j < k; j++ {
+				b.allow(sec, serverMs, int64(o.Ns[j]))
+			}
+			c.Ops = append(c.Ops, o)
 		case "allow", "callow":
-			l := rapid.IntRange(0, len(c.Lims)-1).Draw(rt, "lim")
+			l := pickLim()
 			b := model[l]
 			sec := epoch + callerMs/1000
 			avail, _ := b.filled(sec, serverMs)
@@ -686,13 +869,12 @@ func c08OutageGen(rt *rapid.T) c08TCase {
 }
 
 func c08OutageGenModes(rt *rapid.T, modes []string, concurrent bool) c08TCase {
-	c := c08TCase{Lims: c08GenLims(rt, 3)}
+	c := c08TCase{Lims: c08GenLims(rt, 3, false)}
 	const epoch = int64(946684800)
 	nl := len(c.Lims)
-	model := make([]*c08Bucket, nl)
+	model := c08NewBuckets(c.Lims)
 	resc := make([]*c08Rescue, nl)
 	for i, l := range c.Lims {
-		model[i] = &c08Bucket{rate: int64(l.Rate), burst: int64(l.Burst)}
 		resc[i] = &c08Rescue{rate: int64(l.Rate), burst: int64(l.Burst)}
 	}
 	// request contexts: live cancellable ones (cancelled by a later op) and deadlines
